@@ -46,7 +46,20 @@ type Thread struct {
 	// RandQueue, when non-empty, supplies the next values of the math/rand/v2 global functions
 	// for this thread (the harness dictates e.g. skiplist tower heights).
 	RandQueue []uint64
+	// atomic > 0: the thread is inside a harness-declared atomic section (an oracle that inspects
+	// shared state): operations that are enabled proceed without a scheduling point.
+	atomic int
 }
+
+// BeginAtomic starts an atomic section: until EndAtomic, every hooked operation of this thread that
+// is enabled at the moment it is reached proceeds without parking (an operation that is not enabled,
+// e.g. a lock held by a parked thread, still parks as usual). Meant for oracle code that runs on a
+// managed thread (a crash image taken at the moment of an acknowledgement) and whose own
+// synchronisation is of no interest; never for code under test.
+func (t *Thread) BeginAtomic() { t.atomic++ }
+
+// EndAtomic ends the section started by BeginAtomic.
+func (t *Thread) EndAtomic() { t.atomic-- }
 
 // PointInfo records one decision of an execution.
 type PointInfo struct {
@@ -54,32 +67,34 @@ type PointInfo struct {
 	Env        bool // environment answer (Choose) rather than a scheduling decision
 	RunEnabled bool // the running thread was still enabled (alternative != 0 is a preemption)
 	Devs       int  // deviations (preemptions + non-default env answers) before this point
+	EnvDevs    int  // with a separate environment budget (Explorer.EnvBound > 0): non-default env answers before this point (not counted in Devs)
 	Key        uint64
 	Pruned     bool
 }
 
 // Sched is the state of one execution.
 type Sched struct {
-	mu       sync.Mutex
-	threads  []*Thread
-	running  *Thread
-	prefix   []int
-	Choices  []int
-	Points   []PointInfo
-	devs     int
-	Steps    int
-	Deadlock string
-	Livelock bool
-	Trace    []string
-	traceOn  bool
-	objH     map[uintptr]*uint64
-	execRng  uint64
-	Diverged string
-	aborted  bool
-	prunedAt int
-	fresh    uint64
-	maxSteps int
-	exp      *Explorer
+	mu        sync.Mutex
+	threads   []*Thread
+	running   *Thread
+	prefix    []int
+	Choices   []int
+	Points    []PointInfo
+	devs      int
+	envDevs   int
+	Steps     int
+	Deadlock  string
+	Livelock  bool
+	Trace     []string
+	traceOn   bool
+	objH      map[uintptr]*uint64
+	execRng   uint64
+	Diverged  string
+	aborted   bool
+	prunedAt  int
+	fresh     uint64
+	maxSteps  int
+	exp       *Explorer
 	finisher  func()
 	finishing bool
 	envH      uint64
@@ -133,6 +148,9 @@ func mix(a, b uint64, c uint64) uint64 {
 // Point parks the calling managed thread until the scheduler resumes it. No-op when unmanaged.
 func (t *Thread) Point(op *Op) {
 	s := t.s
+	if t.atomic > 0 && !op.Yield && (op.Enabled == nil || op.Enabled()) {
+		return
+	}
 	s.mu.Lock()
 	if t.unhooked {
 		// it was woken through an un-hooked operation (a real channel): it may have received
@@ -176,6 +194,14 @@ func (t *Thread) EnvPoint(kind string) {
 
 // Acq records an acquire-release operation on the object whose history hash is *obj.
 func (t *Thread) Acq(obj *uint64, code uint64) {
+	if t.atomic > 0 {
+		// An oracle section only inspects: it must not create happens-before edges, otherwise every
+		// moment at which the oracle runs would look like a different state to the state cache.
+		// Sound because such a section releases every lock it takes before it ends and changes only
+		// harness-owned verdict fields, and because every execution is judged in full (a cache hit
+		// only stops branching).
+		return
+	}
 	h := mix(*obj, t.H, code)
 	*obj = h
 	t.H = h
@@ -183,6 +209,9 @@ func (t *Thread) Acq(obj *uint64, code uint64) {
 
 // Load records a pure read of the object.
 func (t *Thread) Load(obj *uint64, code uint64) {
+	if t.atomic > 0 {
+		return
+	}
 	t.H = mix(t.H, *obj, code)
 }
 
@@ -284,10 +313,14 @@ func Choose(n int, label string) int {
 			c = 0
 		}
 	}
-	s.Points = append(s.Points, PointInfo{N: n, Env: true, Devs: s.devs, Pruned: s.prunedAt >= 0})
+	s.Points = append(s.Points, PointInfo{N: n, Env: true, Devs: s.devs, EnvDevs: s.envDevs, Pruned: s.prunedAt >= 0})
 	s.Choices = append(s.Choices, c)
 	if c != 0 {
-		s.devs++
+		if s.exp != nil && s.exp.EnvBound > 0 {
+			s.envDevs++
+		} else {
+			s.devs++
+		}
 	}
 	if s.traceOn {
 		s.Trace = append(s.Trace, fmt.Sprintf("T%d env %s -> %d/%d", t.ID, label, c, n))
